@@ -165,11 +165,11 @@ def n2n_hist(ctx, binp, corr_broken):
     os.makedirs(out, exist_ok=True)
     rc, log = ctx.run_cmd([binp, "-test.run", "^TestVerifN2NHist$", "-test.count=1"], timeout=ctx.budget(300, 1200),
                           env={"VERIF_SEED": ctx.seed, "VERIF_N": ctx.budget(60, 600), "VERIF_OUT": out})
+    _oracle_fails(ctx, log, "n2n_hist")
     if "ORACLE-DONE" not in log:
         ctx.log("n2n history harness failed:\n%s" % log[-1500:])
         corr_broken.append("n2n history harness exit %s" % rc)
         return
-    _oracle_fails(ctx, log, "n2n_hist")
 
     def violate(op, a, b):
         fi, fm = set(re.findall(r"fin:(\d+)", a)), set(re.findall(r"fin:(\d+)", b))
